@@ -12,7 +12,7 @@ use alloc::{borrow::ToOwned, vec::Vec};
 use super::rdata::sig::SigInput;
 use crate::{
     error::{ProtoError, ProtoResult},
-    rr::{DNSClass, Name, Record},
+    rr::{DNSClass, Name, RData, Record},
     serialize::binary::{BinEncodable, BinEncoder, NameEncoding},
 };
 
@@ -74,8 +74,14 @@ impl TBS {
             }
         }
 
-        // put records in canonical order
-        rrset.sort();
+        // put records in canonical order: RFC 4034 section 6.3 orders the RRs of an RRset by their
+        // RDATA in canonical form (section 6.2) and requires duplicates to be removed
+        let mut rrset = rrset
+            .into_iter()
+            .map(|record| Ok((canonical_rdata(&record.data)?, record)))
+            .collect::<ProtoResult<Vec<_>>>()?;
+        rrset.sort_by(|(a, _), (b, _)| a.cmp(b));
+        rrset.dedup_by(|(a, _), (b, _)| a == b);
 
         let name = determine_name(name, input.num_labels)?;
 
@@ -99,7 +105,7 @@ impl TBS {
         input.emit(&mut encoder)?;
 
         // construct the rrset signing data
-        for record in rrset {
+        for (_, record) in rrset {
             //             RR(i) = name | type | class | OrigTTL | RDATA length | RDATA
             //
             //                name is calculated according to the function in the RFC 4035
@@ -131,6 +137,16 @@ impl TBS {
 
         Ok(Self(buf))
     }
+}
+
+/// RDATA in DNSSEC canonical form (RFC 4034 section 6.2), the sort key of RFC 4034 section 6.3
+fn canonical_rdata(data: &RData) -> ProtoResult<Vec<u8>> {
+    let mut buf = Vec::new();
+    let mut encoder = BinEncoder::new(&mut buf);
+    encoder.canonical_form = true;
+    encoder.name_encoding = NameEncoding::Uncompressed;
+    data.emit(&mut encoder)?;
+    Ok(buf)
 }
 
 impl<'a> From<&'a [u8]> for TBS {
